@@ -200,7 +200,8 @@ func (f *voteFixture) bodyConsolidation() voteBody {
 func (f *voteFixture) body(kind int, arg int) voteBody {
 	switch kind {
 	case kindHashes:
-		return f.bodyHashes(arg % 4)
+		// 0-3 hashes mostly; the cap (16) and one below it too
+		return f.bodyHashes([]int{0, 1, 2, 3, 1, 15, 16, 16}[abs(arg)%8])
 	case kindPubkey:
 		return f.bodyPubkey()
 	case kindProcess:
@@ -350,7 +351,14 @@ func tamperBody(b voteBody, which int) voteBody {
 		switch {
 		case which%3 == 0 && len(b.hashes) > 0:
 			c.hashes = append([][]byte{}, b.hashes...)
-			c.hashes[which%len(b.hashes)] = flip(b.hashes[which%len(b.hashes)], which)
+			switch which {
+			case 6: // the last hash, one of its last eight bytes
+				c.hashes[len(b.hashes)-1] = flip(b.hashes[len(b.hashes)-1], 24+which%8)
+			case 9: // the very last byte of the list
+				c.hashes[len(b.hashes)-1] = flip(b.hashes[len(b.hashes)-1], 31)
+			default:
+				c.hashes[which%len(b.hashes)] = flip(b.hashes[which%len(b.hashes)], which)
+			}
 		case which%3 == 1:
 			c.hashes = append(append([][]byte{}, b.hashes...), world.DSha([]byte{byte(which)}))
 		default:
@@ -493,6 +501,18 @@ func (f *voteFixture) buildVote(s VoteSpec) (*builtVote, error) {
 	}
 	if len(marked)+1 < threshold(n) {
 		reject("quorum:below-threshold")
+	}
+	// "proposer plus a set of distinct current voters": nobody may be counted twice, whatever the group looks like
+	{
+		seen := map[string]bool{rv.Proposer: true}
+		for m := range marked {
+			if m < n {
+				if seen[rv.Voters[m]] {
+					reject("member-counted-twice")
+				}
+				seen[rv.Voters[m]] = true
+			}
+		}
 	}
 	// signer multiset must be exactly proposer + marked voters, once each
 	exact := cnt[0] == 1
